@@ -845,11 +845,16 @@ def shards(tier, seed):
         for k in range(n):
             out.append(("conc", kind, k, n))
     out += [("python-O", ("seq", iface, kind)) for iface in ("wsgi", "asgi") for kind in ("json", "multipart")] + [("python-O", ("readfault",))]
+    # ... and in an interpreter whose root logger is set to DEBUG (an application that called logging.basicConfig(level=logging.DEBUG))
+    out += [("debug-logging", d) for d in [('seq', 'wsgi', 'json'), ('seq', 'asgi', 'multipart'), ('readfault',)]]
     return out
 
 
 def run_shard(desc, tier):
     r = R()
+    if desc[0] == "debug-logging":
+        from ..core import fresh
+        return fresh.debug_logging(__name__, tuple(desc[1]), tier)
     if desc[0] == "python-O":
         # the same family in an interpreter that runs with assert statements compiled away
         from ..core import fresh
@@ -945,6 +950,11 @@ def finish(merged, tier):
 
 
 def replay(w):
+    if w.get("debug_logging"):
+        import logging as _logging
+        if _logging.getLogger().level != _logging.DEBUG:
+            from ..core import fresh
+            return fresh.replay_debug_logging(__name__, w)
     import sys as _sys
     if w.get("optimize") and not _sys.flags.optimize:
         from ..core import fresh
